@@ -11,16 +11,19 @@ package main
 import (
 	"bufio"
 	"bytes"
+	"errors"
 	"flag"
 	"fmt"
 	"io"
 	"os"
 	"os/exec"
+	"os/signal"
 	"runtime"
 	"sort"
 	"strconv"
 	"strings"
 	"sync"
+	"syscall"
 	"time"
 
 	"github.com/Ptt-official-app/go-pttbbs/cmsys"
@@ -54,6 +57,7 @@ func goid() string {
 }
 
 func childMain(file string) {
+	signal.Ignore(syscall.SIGXFSZ) // a write past RLIMIT_FSIZE returns EFBIG instead of killing the process
 	var mu sync.Mutex
 	out := bufio.NewWriter(os.Stdout)
 	say := func(format string, a ...interface{}) {
@@ -105,6 +109,9 @@ func childMain(file string) {
 						if err == cmsys.ErrPttLock {
 							return "err"
 						}
+						if errors.Is(err, syscall.EFBIG) {
+							return "err:write"
+						}
 						return "err:" + strings.ReplaceAll(err.Error(), " ", "_")
 					}
 					return "ok:" + strconv.Itoa(int(idx))
@@ -124,6 +131,20 @@ func childMain(file string) {
 				say("appended err:%v", strings.ReplaceAll(err.Error(), " ", "_"))
 			} else {
 				say("appended ok:%d", idx)
+			}
+		case "limit": // from now on this process cannot grow the file: writes past its present size fail with EFBIG
+			st, err := os.Stat(file)
+			if err != nil {
+				say("limited err")
+				break
+			}
+			var rl syscall.Rlimit
+			_ = syscall.Getrlimit(syscall.RLIMIT_FSIZE, &rl)
+			rl.Cur = uint64(st.Size())
+			if err := syscall.Setrlimit(syscall.RLIMIT_FSIZE, &rl); err != nil {
+				say("limited err")
+			} else {
+				say("limited ok")
 			}
 		case "try": // one contended-or-not GoFlockExNb + GoFunlock on the record file (ptt.doAddRecommendSmartMerge's pattern)
 			fh, err := os.OpenFile(file, os.O_WRONLY, 0o644)
@@ -238,6 +259,19 @@ func newController(procs []int, file string, bin string) *controller {
 			panic(err)
 		}
 		c.children[p] = &child{cmd: cmd, in: in, stderr: errBuf}
+		if p >= 50 {
+			defer func(p int) { // once the reader below is running
+				c.send(p, "limit")
+				select {
+				case l := <-c.misc:
+					if l != "limited ok" {
+						c.errs = append(c.errs, "harness: could not set the file-size limit: "+l)
+					}
+				case <-time.After(5 * time.Second):
+					c.errs = append(c.errs, "harness: limit command timed out")
+				}
+			}(p)
+		}
 		go func() {
 			sc := bufio.NewScanner(outp)
 			for sc.Scan() {
@@ -303,7 +337,7 @@ func (c *controller) release(t int) {
 		}
 		return
 	}
-	wasWritten := c.state[t] == "written"
+	wasWritten := c.state[t] == "written" || c.state[t] == "seeked" || c.state[t] == "locked" // holds the flock
 	inSeg1 := c.state[t] == "start"
 	c.send(p, "go %d", t)
 	grace := 5 * time.Second
@@ -562,6 +596,13 @@ func runSchedule(bin string, procs []int, n0 int, sched []int, nontrivial bool) 
 		c.send(p, "append")
 		select {
 		case l := <-c.misc:
+			if p >= 50 {
+				// a process under the file-size limit cannot append; what matters is that it gets as far as the write
+				if strings.Contains(l, "ptt-lock") || strings.HasPrefix(l, "appended ok:") {
+					run.Fail(last, "lock-leak", fmt.Sprintf("an append issued by the size-limited process %d after all others finished: %s", p, l))
+				}
+				break
+			}
 			if !strings.HasPrefix(l, "appended ok:") {
 				run.Fail(last, "lock-leak", fmt.Sprintf("an append issued by process %d after all others finished failed: %s", p, l))
 			}
@@ -769,9 +810,10 @@ func main() {
 
 	// try-locks (GoFlockExNb) thrown into the schedules: a refused kernel lock must leave the lock
 	// table as it found it, so everything after it — and the final appends — behave as without it.
-	tryCfgs := []cfg{{[]int{0, 1}, 1, 30}, {[]int{0, 0}, 1, 12}}
+	// processes 50.. run under a file-size limit: their writes fail under the lock (error path of the body)
+	tryCfgs := []cfg{{[]int{0, 1}, 1, 30}, {[]int{0, 0}, 1, 12}, {[]int{0, 50}, 1, 25}, {[]int{50, 50}, 2, 8}, {[]int{50, 0, 0}, 1, 8}}
 	if run.Thorough() {
-		tryCfgs = []cfg{{[]int{0, 1}, 1, 400}, {[]int{0, 0}, 1, 150}, {[]int{0, 0, 1, 1}, 0, 150}}
+		tryCfgs = []cfg{{[]int{0, 1}, 1, 400}, {[]int{0, 0}, 1, 150}, {[]int{0, 0, 1, 1}, 0, 150}, {[]int{0, 50}, 1, 300}, {[]int{50, 50}, 2, 100}, {[]int{50, 0, 0}, 1, 150}, {[]int{50, 51}, 0, 100}}
 	}
 	for _, cf := range tryCfgs {
 		for k := 0; k < cf.sample; k++ {
